@@ -532,7 +532,8 @@ class IdentityMatrix(PositiveDefiniteMatrix, ImplicitArrayMatrix):
 
     @property
     def diagonal(self) -> NDArray:
-        return np.ones(self.shape[0])
+        # implicit size: scalar-shaped array which broadcasts against any vector
+        return np.ones(() if self.shape[0] is None else self.shape[0])
 
     def _construct_array(self) -> NDArray:
         if self.shape[0] is None:
@@ -642,7 +643,8 @@ class ScaledIdentityMatrix(SymmetricMatrix, DifferentiableMatrix, ImplicitArrayM
 
     @property
     def diagonal(self) -> NDArray:
-        return self._scalar * np.ones(self.shape[0])
+        # implicit size: scalar-shaped array which broadcasts against any vector
+        return self._scalar * np.ones(() if self.shape[0] is None else self.shape[0])
 
     def _construct_array(self) -> NDArray:
         if self.shape[0] is None:
